@@ -1,10 +1,10 @@
 package exec
 
 import (
-	"os"
 	"bytes"
 	"encoding/json"
 	"fmt"
+	"os"
 	"sort"
 	"strconv"
 	"strings"
